@@ -173,6 +173,35 @@ impl TimeZoneProvider for TableProvider {
     }
 }
 
+/// The table provider and the library's own file-system provider behind one value: the monitors run the same
+/// checks through either (the real zones only make sense through the second one).
+pub struct SwitchProvider {
+    pub table: TableProvider,
+    pub fs: temporal_rs::tzdb::FsTzdbProvider,
+    pub use_fs: std::cell::Cell<bool>,
+}
+
+impl SwitchProvider {
+    pub fn new(zs: Vec<Zone>) -> Self {
+        SwitchProvider { table: TableProvider::new(zs), fs: temporal_rs::tzdb::FsTzdbProvider::default(), use_fs: std::cell::Cell::new(false) }
+    }
+}
+
+impl TimeZoneProvider for SwitchProvider {
+    fn check_identifier(&self, id: &str) -> bool {
+        if self.use_fs.get() { self.fs.check_identifier(id) } else { self.table.check_identifier(id) }
+    }
+    fn get_named_tz_epoch_nanoseconds(&self, id: &str, dt: IsoDateTime) -> TemporalResult<Vec<EpochNanoseconds>> {
+        if self.use_fs.get() { self.fs.get_named_tz_epoch_nanoseconds(id, dt) } else { self.table.get_named_tz_epoch_nanoseconds(id, dt) }
+    }
+    fn get_named_tz_offset_nanoseconds(&self, id: &str, ns: i128) -> TemporalResult<TimeZoneOffset> {
+        if self.use_fs.get() { self.fs.get_named_tz_offset_nanoseconds(id, ns) } else { self.table.get_named_tz_offset_nanoseconds(id, ns) }
+    }
+    fn get_named_tz_transition(&self, id: &str, ns: i128, direction: TransitionDirection) -> TemporalResult<Option<EpochNanoseconds>> {
+        if self.use_fs.get() { self.fs.get_named_tz_transition(id, ns, direction) } else { self.table.get_named_tz_transition(id, ns, direction) }
+    }
+}
+
 /// Load the tables exported by oracle_py/export_zones.py.
 pub fn load_real(path: &str) -> Vec<Zone> {
     let text = std::fs::read_to_string(path).unwrap_or_default();
